@@ -846,10 +846,17 @@ class TextXMetaModel(DebugPrinter):
                 p(model, self)
         except:  # noqa
             if hasattr(self, "_tx_model_repository"):
+                from textx.model import _abandon_user_objects
+
                 repo = self._tx_model_repository
-                repo.remove_models(
-                    [m for m in list(repo.all_models) if id(m) not in cached_models]
-                )
+                loaded_models = [
+                    m for m in list(repo.all_models) if id(m) not in cached_models
+                ]
+                repo.remove_models(loaded_models)
+                # The removed models can not be found by the clean-up of an
+                # enclosing load anymore. Restore the user classes of those
+                # which are still being constructed here.
+                _abandon_user_objects(loaded_models)
             raise
 
     def register_model_processor(self, model_processor):
